@@ -387,6 +387,43 @@ def divpow2_real(ctx):
         ctx.ensure("result==array/2^k", ctx.conj([ctx.zero(r[i, j] * 2 ** k - x[i, j]) for i in range(2) for j in range(2)]))
 
 
+@case("C01", "divpow2.complex", names("a", 2, 2) + names("b", 2, 2) + ["P"], mode="real", functions=["geometer.point._divide_by_power_of_two"], spare=60)
+def divpow2_complex(ctx):
+    """complex branch of _divide_by_power_of_two (dtype.kind == 'c': real and imaginary parts are split by frexp separately and
+    written through the .real / .imag views of a fresh array) against the same contract: result == array * 2**-power"""
+    from geometer.point import _divide_by_power_of_two
+    from gvc.snp import CSymArray, ExpSym
+    from gvc.sym import Sym
+
+    a = ctx.arr("a", 2, 2)
+    b = ctx.arr("b", 2, 2)
+    P = ctx.sym("P")
+    if ctx.symbolic:
+        ctx.assume(P > 0)
+        x = np.empty((2, 2), dtype=object)
+        for i in np.ndindex(2, 2):
+            x[i] = a[i] + Sym.const(1j) * b[i]
+        x = x.view(CSymArray)
+        before = [x.view(np.ndarray)[i] for i in np.ndindex(2, 2)]
+        power = np.empty((1, 1), dtype=object)
+        power[0, 0] = ExpSym(P)
+        r = _divide_by_power_of_two(x, power)
+        rb = np.asarray(r).view(np.ndarray)
+        ctx.ensure("complex:branch-taken", x.dtype.kind == "c" and r is not x)
+        ctx.ensure("complex:real-part==re(array)/2^k", ctx.conj([ctx.zero(Sym.const(rb[i]).real * P - a[i]) for i in np.ndindex(2, 2)]))
+        ctx.ensure("complex:imag-part==im(array)/2^k", ctx.conj([ctx.zero(Sym.const(rb[i]).imag * P - b[i]) for i in np.ndindex(2, 2)]))
+        ctx.ensure("complex:argument-unchanged", all(x.view(np.ndarray)[i] is before[k] for k, i in enumerate(np.ndindex(2, 2))))
+    else:
+        k = 3
+        x = (np.asarray(a, dtype=float) + 1j * np.asarray(b, dtype=float)).astype(complex)
+        x0 = x.copy()
+        r = _divide_by_power_of_two(x, np.array([[k]]))
+        ctx.ensure("complex:branch-taken", x.dtype.kind == "c" and r is not x)
+        ctx.ensure("complex:real-part==re(array)/2^k", ctx.conj([ctx.zero(r[i].real * 2 ** k - a[i]) for i in np.ndindex(2, 2)]))
+        ctx.ensure("complex:imag-part==im(array)/2^k", ctx.conj([ctx.zero(r[i].imag * 2 ** k - b[i]) for i in np.ndindex(2, 2)]))
+        ctx.ensure("complex:argument-unchanged", bool(np.array_equal(x, x0)))
+
+
 @case("C01", "join.meet.lattice.extreme", [], kind="bounded", functions=FUN + ["geometer.point._divide_by_power_of_two"],
       bound="2D/3D joins and meets of axis points/lines/planes with coordinates in {1, -3, 2**30, 2**60, -3*2**60} (every result entry is a single product: exact in double precision), "
             "incidence checked EXACTLY with rational arithmetic; normalisation must not change the projective class")
